@@ -21,9 +21,11 @@ val merge_keep_nullable :
 
 val append_limit : coq_N -> 'a1 list -> 'a1 list -> 'a1 list
 
-val final_slice : coq_N -> coq_N -> 'a1 list -> 'a1 list option
+val final_slice : coq_N -> coq_N -> 'a1 list -> 'a1 list
 
-val combined_limit : coq_N -> coq_N -> coq_N option
+val u64_max : coq_N
+
+val combined_limit : coq_N -> coq_N -> coq_N
 
 val take_run : ('a1 -> 'a1 -> bool) -> 'a1 -> 'a1 list -> nat * 'a1 list
 
